@@ -180,6 +180,23 @@ def case_programs(empty_bodies=False):
                     src = DECLS + "parser { greedy case { " + " ".join(cls) + ' } ";"; }\n'
                     out.append({"name": f"caseM/prio{kk}g{par}", "src": src, "args": ["-feof-support", "-fyield-support"], "path": None})
             kk += 1
+    # a single pattern, in tail position (nothing follows the case), with an empty clause body: a byte that merely ends the pattern ends the
+    # program - it is neither a mismatch nor the else route (the decider's finish states carry no error transition)
+    if not empty_bodies:
+        kk = 0
+        for pth in ['/[0-9]+/', '/ab?/', '/ab*/', '/a+/', '"ab"', '/(ab)+/', '"Ab"i', '/[b-d]x*/']:
+            for tailcl in ("", "else -> { n = [9]; }", "else -> { }"):
+                for greedy in (False, True):
+                    src = DECLS + "parser { " + ("greedy " if greedy else "") + "case { " + pth + " -> { } " + tailcl + " } }\n"
+                    out.append({"name": f"caseT/{kk}{'g' if greedy else ''}", "src": src, "args": ["-feof-support", "-fyield-support"], "path": None})
+                    kk += 1
+    # patterns that loop on a negated class / wildcard inside a finishing state (known finding F-08b: the merge drops the explicit exclusion
+    # of the negated class on finishing states, so the excluded byte is swallowed by the pattern's Else loop)
+    if not empty_bodies:
+        for kk, (pth, rest) in enumerate([('/[^a]+/', ''), ('/[^a]+/', 'else -> { n = [9]; }'), ('/x[^a]*/', '"a" -> { n = [2]; }'), ('/[^ab]+/', '"a" -> { n = [2]; "!"; }')]):
+            body = "{ }" if kk < 2 else '{ n = [1]; }' if kk == 2 else '{ n = [1]; "!"; }'
+            src = DECLS + "parser { case { " + pth + " -> " + body + " " + rest + " } " + ('";"; ' if kk >= 2 else '') + "}\n"
+            out.append({"name": f"caseN/{kk}", "src": src, "args": ["-feof-support", "-fyield-support"], "path": None})
     # else sharing a clause with patterns (the clause is entered through a pattern or through the no-match route)
     kk = 0
     for a, b, c in [('"cd"', '"ab"', '"x"'), ('/c+d/', '"ab"', '/[xy]/'), ('"Cd"i', '/a*b/', '"cx"'), ('/\\d+/', '"ab"', '"a"')]:
